@@ -1137,6 +1137,30 @@ func jsonComponent(r *hx.Run) {
 		}
 		r.Case(class, "jlog", u, e, logReal(uniq, rs))
 	}
+	// records of every length around the sizes at which buffers end (128, 256, 512, 1024, 4096 bytes): each is still one
+	// write of one whole line (three records per case: the one under test between two others)
+	for _, edge := range []int{128, 256, 512, 1024, 4096} {
+		step := 1
+		if r.Tier != "thorough" && edge >= 1024 {
+			step = 3
+		}
+		for total := edge - 6; total <= edge+6; total += step {
+			ip := fmt.Sprintf("10.%d.%d.%d", r.Rng.Intn(256), r.Rng.Intn(256), r.Rng.Intn(256))
+			mac := "02:00:00:00:00:01"
+			fixed := len(`{"ip":"","mac":"","vendor":""}`) + len(ip) + len(mac)
+			if total <= fixed {
+				continue
+			}
+			mid := &arp.ScanResult{IP: ip, MAC: mac, Vendor: strings.Repeat("v", total-fixed)}
+			rs := []scan.Result{&arp.ScanResult{IP: "10.0.0.1", MAC: mac, Vendor: "a"}, mid, &tcp.ScanResult{ScanType: "tcpsyn", IP: "10.0.0.2", Port: 80}}
+			var encs []string
+			for _, res := range rs {
+				encs = append(encs, encResult(res))
+			}
+			r.Count("log.length-edge")
+			r.Case(fmt.Sprintf("log/length-edge/%d", edge), "jlog", "0", strings.Join(encs, "|"), logReal(false, rs))
+		}
+	}
 	// plain-text mode (no --json): the same results through the real logger with its default writer; one write per
 	// result: the String() of the result and a newline (arp, tcp, icmp/udp, socks: padded columns)
 	nPlain := 150
